@@ -1,7 +1,7 @@
 """C09 - fingerprint equality is a content-based equivalence; copies are independent
 (model M2: Model/Fprint.v fp_eq / from_fingerprint, Model/FprintIO.v fp_ne / py_eq / py_ne; Properties/C09.v).
 
-The FingerprintDatabase part of the property (`FingerprintDatabase.__eq__`) is checked with the database model."""
+The FingerprintDatabase part of the property (`FingerprintDatabase.__eq__`) is props/c09_db.py (model Model/Db.v), called at the end of run()."""
 import copy
 import pickle
 import numpy as np
@@ -198,7 +198,7 @@ def sec_copies(st):
     ways = [('from_fingerprint', lambda a: a.__class__.from_fingerprint(a)),
             ('deepcopy', copy.deepcopy),
             ('pickle', lambda a: pickle.loads(pickle.dumps(a)))]
-    for i in range(st.ctx.n(80, 1200)):
+    for i in range(st.ctx.n(160, 2400)):
         sa = rand_spec(rng, big=rng.random() < 0.2, unit=rng.random() < 0.2)
         a = build(sa)
         _fold_some(rng, a)
@@ -207,7 +207,7 @@ def sec_copies(st):
         back = None
         r = rng.random()
         if r < 0.45:
-            wname, way = rng.choice(ways)
+            wname, way = ways[0] if rng.random() < 0.5 else rng.choice(ways[1:])
         else:
             # conversion to another kind and back, where representable
             other = rng.choice([k for k in fpgen.KINDS if k != kind])
@@ -301,6 +301,15 @@ def run(ctx):
     nbad = core.compare_cases(ctx, st.cases, IMPORTS, 'C09 equality/copies', st.payloads, model_expr=st.mexpr,
                               finding_key_of=lambda k, pl: 'model:%s' % pl.get('section'))
     found_input = st.found_input or nbad > 0
+    # database part (FingerprintDatabase.__eq__), built with the database model
+    try:
+        import importlib
+        dbpart = importlib.import_module('props.c09_db')
+    except ImportError:
+        dbpart = None
+        ctx.notes.append('props/c09_db.py not present: FingerprintDatabase.__eq__ not exercised in this run')
+    if dbpart is not None:
+        found_input = bool(dbpart.part(ctx)) or found_input
     ctx.coverage['rule'] = ('pairs (a, related(a)) with related in {equal, other level incl. None, other bits, strict subset, strict superset, overlap, '
                             'one count changed, other name, other kind, empty} over all kinds and bits 1..2^32, all 8x8(+1) pairs of subsets of 3 positions per kind; '
                             'each pair compared with ==, !=, __eq__, __ne__ in both orders; transitivity/reflexivity/symmetry triples; copies by '
